@@ -9,8 +9,8 @@ op  = ["sched", kind, t, fl, prio, tag, holder, body] | ["cancel", tag] | ["drop
 act = ["sched", ...same...] | ["cancel", tag] | ["drop", holder]
 kind in now|rel|abs|tick, prio in L|D|H.  Tags are unique per case; model.step events show as tag -1.
 
-User code: an event's callable is the bound method `fire` of a Holder object (so that dropping the holder kills
-the weak reference), called with (tag, body); it logs [0, tag, clock] and interprets body; every schedule call
+User code: an event's callable is the bound method `fire` of a Holder object (even holder ids; WeakMethod) or a plain
+function object (odd holder ids; weakref.ref), so that dropping the holder kills the weak reference; it is called with (tag, body); it logs [0, tag, clock] and interprets body; every schedule call
 made by user code is wrapped in try/except and its outcome logged ([4, tag, time] accepted, [1|2, tag, 0]
 rejected past / unit, [5, tag, 0] not attempted).  model.step logs [3, model.steps, clock] and interprets
 script[model.steps]."""
@@ -83,7 +83,14 @@ class _Env:
                 env.log.append([3, self.steps, sc(env.sim.time)])
                 env.run_acts(env.script.get(self.steps, []))
 
+        def make_fn():
+            def fire(tag, body):
+                env.log.append([0, tag, sc(env.sim.time)])
+                env.run_acts(body)
+            return fire
+
         self.Holder = Holder
+        self.make_fn = make_fn
         self.sim = ABMSimulator() if self.abm else DEVSimulator()
         self.model = M()
         self.sim.setup(self.model)
@@ -108,18 +115,22 @@ class _Env:
         if kind == "tick" and not self.abm:
             return R_SKIP, 0
         if h not in self.holders:
-            self.holders[h] = self.Holder(h)
+            # even holders: an object whose bound method is the callable (WeakMethod); odd holders: a plain
+            # function object (weakref.ref) - both kinds of weak reference of SimulationEvent.__init__
+            self.holders[h] = self.Holder(h) if h % 2 == 0 else self.make_fn()
         holder = self.holders[h]
+        fn = holder.fire if h % 2 == 0 else holder
+        del holder
         kw = {"priority": self.prio[prio], "function_args": [tag, body]}
         try:
             if kind == "now":
-                ev = self.sim.schedule_event_now(holder.fire, **kw)
+                ev = self.sim.schedule_event_now(fn, **kw)
             elif kind == "rel":
-                ev = self.sim.schedule_event_relative(holder.fire, tv(t, fl), **kw)
+                ev = self.sim.schedule_event_relative(fn, tv(t, fl), **kw)
             elif kind == "abs":
-                ev = self.sim.schedule_event_absolute(holder.fire, tv(t, fl), **kw)
+                ev = self.sim.schedule_event_absolute(fn, tv(t, fl), **kw)
             else:
-                ev = self.sim.schedule_event_next_tick(holder.fire, **kw)
+                ev = self.sim.schedule_event_next_tick(fn, **kw)
         except ValueError as e:
             msg = str(e)
             if "in the past" in msg:
